@@ -16,7 +16,7 @@ META = {
 def run(chk):
     # ---- B1 ----
     for _cfg in (("StoreMC.cfg",) if chk.thorough() else ("StoreMC_quick.cfg", "StoreMC_nocopy.cfg")):
-        r = chk.tlc("StoreMC", _cfg, label=_cfg + ": " + "design, all mechanisms repaired")
+        r = chk.tlc("StoreMC", _cfg, coverage=True, label=_cfg + ": " + "design, all mechanisms repaired")
         if r.violated:
             raise MachineryError(f"Store design violates {r.violated}: {r.counterexample()[:3000]}")
     for sw, inv in (("DelPhantom", "C37_Keys"), ("ExtClash", "C37_Values"), ("CloseTwice", "C37_Persistent"), ("NpHeader", True)):
